@@ -13,8 +13,8 @@ tests() { grep -ho '^func Test[A-Za-z0-9_]*' $demos | sed 's/func //' | paste -s
 put() { for f in $demos; do cp "$f" "$(pkgdir "$f")/"; done; }
 del() { for f in $demos; do rm -f "$(pkgdir "$f")/$(basename "$f")"; done; }
 v() { if [ "$1" = 0 ]; then echo pass; else echo fail; fi; }
-put; (cd "$WT" && go test -vet=off -count=1 -run "^($(tests))\$" ./... >/dev/null 2>&1); a=$?; del
+put; (cd "$WT" && go test ${SEED_TEST_FLAGS:-} -vet=off -count=1 -run "^($(tests))\$" ./... >/dev/null 2>&1); a=$?; del
 git -C "$WT" apply "$D/patch.diff" || { echo "patch_applies=no"; exit 2; }
 (cd "$WT" && go build ./... >/dev/null 2>&1 && go test -vet=off -count=1 ./... >/dev/null 2>&1); b=$?
-put; (cd "$WT" && go test -vet=off -count=1 -run "^($(tests))\$" ./... >/dev/null 2>&1); c=$?; del
+put; (cd "$WT" && go test ${SEED_TEST_FLAGS:-} -vet=off -count=1 -run "^($(tests))\$" ./... >/dev/null 2>&1); c=$?; del
 echo "demo_on_unchanged=$(v $a) suite_with_change=$(v $b) demo_with_change=$(v $c) tests=$(tests)"
